@@ -199,9 +199,11 @@ impl Cases {
             v.push_str("\n].\n");
         }
         for (g, f) in checks {
+            // a checker named `*_code` classifies (0 = fine), any other returns a bool
+            let how = if f.ends_with("_code") { "coded" } else { "failing" };
             let _ = write!(
                 v,
-                "Definition res_{g} := Eval vm_compute in failing {f} {g}.\nRedirect \"{out}/{stem}.{g}\" Print res_{g}.\n"
+                "Definition res_{g} := Eval vm_compute in {how} {f} {g}.\nRedirect \"{out}/{stem}.{g}\" Print res_{g}.\n"
             );
         }
         std::fs::write(format!("{out}/{stem}.v"), v).unwrap();
